@@ -1,5 +1,6 @@
 import Proofs.C14Fields
 import Proofs.C14Machine
+import Proofs.C16Locals
 /-!
 # C14 — a reused Interpreter behaves like a fresh one
 
@@ -195,5 +196,31 @@ example : (execute streamCfg fresh).1.core.perRun.dash = some ["x", "y"] ∧
 example : (execute rangeCfg fresh).1.core.perRun.inRange = true := by decide
 
 end Machine
+
+/-! ## Call machinery: why `arrays` is a `vars` field although calls push their local arrays onto it
+
+`GoawkModel.C16.Locals` models `CallUser`'s array-table discipline (append new empty maps, run the body, truncate on EVERY path before
+the way of ending is looked at); the harness of C16 compares it with the real interpreter. -/
+section Locals
+open GoawkModel.C16.Locals
+
+/-- Whatever the pieces of an earlier run did and however each of them ended — normally, by `exit`, `next`, `nextfile`, a run-time
+error or call-depth overflow inside any nesting of calls — the table the run leaves behind holds exactly the global arrays (nothing of
+an aborted activation stays reachable, and `resetVars`, which empties the maps of the table, reaches every map a later run can see),
+and every function entry of a later run on the same table starts with empty local arrays. Unbounded in functions, pieces and fuel. -/
+theorem locals_fresh_across_runs (fns : List Fn) (fuel : Nat) (run₁ run₂ : List (List Stmt)) (globals : Table) :
+    (phases fns fuel globals.length run₁ ⟨globals, []⟩).1.tab = globals ∧
+      AllFresh (phases fns fuel globals.length run₂ ⟨(phases fns fuel globals.length run₁ ⟨globals, []⟩).1.tab, []⟩).1.entries := by
+  have h₁ := phases_spec fns fuel run₁ ⟨globals, []⟩ (fun e he => by cases he)
+  refine ⟨h₁.1, ?_⟩
+  rw [h₁.1]
+  exact (phases_spec fns fuel run₂ ⟨globals, []⟩ (fun e he => by cases he)).2
+
+/-- non-vacuity: run 1 dies by a run-time error two calls deep with both activations' arrays filled; run 2 calls the same functions -/
+example :
+    (phases [⟨1, [.fill 0 1, .call 1]⟩, ⟨2, [.fill 0 2, .fill 1 3, .leave .err]⟩] 40 0 [[.call 0]] ⟨[], []⟩) =
+      (⟨[], [[0], [0, 0]]⟩, [.err]) := rfl
+
+end Locals
 
 end GoawkModel.PropsC14
